@@ -231,7 +231,7 @@ def rand_case(draw):
     api = draw(st.sampled_from(READ_APIS))
     verify = draw(st.sampled_from([None, False]))
     cols = draw(st.one_of(st.none(), st.lists(st.sampled_from([f["name"] for f in fields] + ["fid"]), min_size=1, max_size=2, unique=True)))
-    return {"kind": "rand", "fields": fields, "files": files, "filter": flt, "api": api, "verify": verify, "columns": cols, "cross": cross}
+    return {"kind": "rand", "fields": fields, "files": files, "filter": flt, "api": api, "verify": verify, "columns": cols, "cross": cross, "one_txn": draw(st.integers(0, 2)) == 0 and any(files)}
 
 
 def check_rand(case):
@@ -239,8 +239,23 @@ def check_rand(case):
     fields = case["fields"] + [{"id": 99, "name": "fid", "type": "long", "required": False}]
     with scratch_dir("c13r") as d:
         t = new_table(d + "/t", fields)
-        for fid, rows in enumerate(case["files"]):
-            setup_append(t, [dict(r, fid=fid) for r in rows])
+        if case.get("one_txn"):
+            # every file written by ONE transaction (several append_data calls, one commit): their statistics live side by
+            # side in memory before the manifest is encoded
+            from ..common import SetupRejected
+
+            try:
+                with t.new_transaction() as tx:
+                    for fid, rows in enumerate(case["files"]):
+                        if rows:
+                            tx.append_data([dict(r, fid=fid) for r in rows])
+                    tx.commit()
+            except Exception as e:  # noqa
+                raise SetupRejected(f"{type(e).__name__}: {e}") from e
+            out["labels"].append("files-from-one-transaction")
+        else:
+            for fid, rows in enumerate(case["files"]):
+                setup_append(t, [dict(r, fid=fid) for r in rows])
         flt = case["filter"]
         a, b, skipped = _compare(t, flt, case["api"], case["verify"], case["columns"])
         out["nontrivial"] = skipped > 0
